@@ -332,3 +332,432 @@ Proof.
   destruct (env_hi_spec (nth j xq 0) dxq dyq (snd (nth j dyq (0, 0)))) as (_ & _ & [->|(dx' & dy' & Hin' & _ & ->)]);
   repeat match goal with Hc : In (_, ?d) (combine dxq dyq) |- _ => apply in_combine_r in Hc; apply H in Hc end; lra.
 Qed.
+
+(* ====================================================================== *)
+(* D. identity sampler: the pointwise intervals and the closed form        *)
+(* ====================================================================== *)
+Lemma to_pairs_spec m : forall data, length data = (2 * m)%nat ->
+  length (to_pairs data) = m /\
+  forall j, (j < m)%nat -> nth j (to_pairs data) (None, None) = (nth (j * 2 + 0) data None, nth (j * 2 + 1) data None).
+Proof.
+  induction m as [|m IH]; intros data Hl.
+  - destruct data; [|simpl in Hl; lia]. split; [reflexivity|]. intros j Hj. lia.
+  - destruct data as [|a [|b r]]; try (simpl in Hl; lia).
+    destruct (IH r) as [L N]; [simpl in Hl; lia|]. cbn [to_pairs length]. split; [lia|].
+    intros [|j] Hj; [reflexivity|]. cbn [nth]. rewrite N by lia.
+    replace (S j * 2 + 0)%nat with (S (S (j * 2 + 0))) by lia. replace (S j * 2 + 1)%nat with (S (S (j * 2 + 1))) by lia.
+    reflexivity.
+Qed.
+Lemma nth_firstn {A} (d : A) l n j : (j < n)%nat -> nth j (firstn n l) d = nth j l d.
+Proof.
+  revert l j. induction n as [|n IH]; intros l j Hj; [lia|]. destruct l as [|a l]; [destruct j; reflexivity|].
+  destruct j; [reflexivity|]. simpl. apply IH. lia.
+Qed.
+Lemma nth_skipn' {A} (d : A) l n j : nth j (skipn n l) d = nth (n + j) l d.
+Proof.
+  revert l. induction n as [|n IH]; intro l; [reflexivity|]. destruct l as [|a l]; [destruct j; reflexivity|]. simpl. apply IH.
+Qed.
+Lemma all_ret_repeat {A} (h : A) n : all_ret (repeat (Ret h) n) = Ret (repeat h n).
+Proof. unfold all_ret. induction n as [|n IH]; simpl; [reflexivity|]. rewrite IH. reflexivity. Qed.
+Lemma Forall2_nth {A B} (P : A -> B -> Prop) l1 l2 (d1 : A) (d2 : B) j :
+  Forall2 P l1 l2 -> (j < length l1)%nat -> P (nth j l1 d1) (nth j l2 d2).
+Proof.
+  intro H. revert j. induction H as [|a b l1 l2 Hab _ IH]; intros j Hj; simpl in Hj; [lia|].
+  destruct j; [exact Hab|]. simpl. apply IH. lia.
+Qed.
+Lemma Forall2_length' {A B} (P : A -> B -> Prop) l1 l2 : Forall2 P l1 l2 -> length l2 = length l1.
+Proof. induction 1; simpl; congruence. Qed.
+
+(* the intervals a (lo, hi) pair list is allowed to be: row j is [q_j, q_j] up to equality of rationals *)
+Definition pw_ok (q : nat -> rate) (n : nat) (pw : list (rate * rate)) : Prop :=
+  length pw = n /\
+  forall j, (j < n)%nat -> exists lo hi c, q j = Some c /\ nth j pw (None, None) = (Some lo, Some hi) /\ lo == c /\ hi == c.
+
+Section Identity.
+  Variable succ pred : Q -> Q.
+  Variable pow : Q -> Q -> Q.
+  Variables Phi PhiInv pow15 : Q -> Q.
+  Variable ksone_ppf : Q -> Z -> Q.
+  Variable H : Type.
+  Variable dynamic_choice : scores -> config scores -> sampling scores.
+  Variable builtin_sample : sampling scores -> scores -> config scores -> H -> BootCI.res scores.
+
+  Notation joint_ci := (joint_ci succ pred Phi PhiInv pow15 H dynamic_choice builtin_sample).
+  Notation pointwise_intervals := (pointwise_intervals succ pred pow Phi PhiInv pow15 H dynamic_choice builtin_sample).
+  Definition identity_sampler (s : scores) (cfg : config scores) (hist : nat -> H) : Prop :=
+    forall j, (j < nb_samples cfg)%nat -> bootstrap_sample scores H dynamic_choice builtin_sample s cfg (hist j) j = Ok s.
+
+  Lemma joint_ci_identity s fnr fpr alpha cfg hist hat :
+    identity_sampler s cfg hist -> joint_metric succ pred fnr fpr s tt = Ret hat ->
+    joint_ci s fnr fpr alpha cfg hist
+    = utils_ci Phi PhiInv pow15 [2%nat; length fnr] (repeat hat (nb_samples cfg)) (Some hat) alpha (bootstrap_method cfg).
+  Proof.
+    intros Hid Hm. unfold RocCI.joint_ci. rewrite bootstrap_ci_m_spec.
+    rewrite (bootstrap_metric_identity _ _ _ _ _ dynamic_choice builtin_sample _ s _ cfg hist tt Hid).
+    cbn [resolve_metric]. rewrite Hm. unfold ci_routine. rewrite all_ret_repeat. reflexivity.
+  Qed.
+
+  Definition proper (s : scores) : Prop := easy_ok s /\ len (pos s) <> 0%Z /\ len (neg s) <> 0%Z.
+  Lemma proper_pop s : proper s -> (0 < nb_all_pos s)%Z /\ (0 < nb_all_neg s)%Z.
+  Proof.
+    intros ([E1 E2] & Hp & Hn). pose proof (len_nonneg (pos s)). pose proof (len_nonneg (neg s)).
+    unfold nb_all_pos, nb_all_neg. lia.
+  Qed.
+  Lemma s_fnr_some s t : proper s -> exists v, s_fnr s t = Some v.
+  Proof. intro Hs. destruct (s_fnr_count s t (proj1 Hs) (proj1 (proper_pop s Hs))) as (v & E & _). eauto. Qed.
+  Lemma s_fpr_some s t : proper s -> exists v, s_fpr s t = Some v.
+  Proof. intro Hs. destruct (s_fpr_count s t (proj1 Hs) (proj2 (proper_pop s Hs))) as (v & E & _). eauto. Qed.
+
+  (* under an identity sampler the bootstrap interval of component j collapses to the point estimate
+     q_j = fnr(threshold_at_fpr(fpr_j))  (resp. fpr(threshold_at_fnr(fnr_j))) — not necessarily the observed rate —
+     and the pointwise intervals are those [q_j, q_j] with the rule-of-three substitution applied *)
+  Theorem pointwise_identity s fnr fpr alpha cfg hist :
+    proper s -> identity_sampler s cfg hist -> 0 < alpha -> alpha < 1 -> (0 < nb_samples cfg)%nat ->
+    length fpr = length fnr ->
+    exists t_fpr t_fnr fnr_pw fpr_pw,
+      thresholds_at_fpr succ pred s (map rval fpr) = Ret t_fpr /\
+      thresholds_at_fnr succ pred s (map rval fnr) = Ret t_fnr /\
+      pw_ok (fun j => s_fnr s (Fin (nth j t_fpr 0))) (length fnr) fnr_pw /\
+      pw_ok (fun j => s_fpr s (Fin (nth j t_fnr 0))) (length fnr) fpr_pw /\
+      pointwise_intervals s fnr fpr alpha cfg hist
+      = Ret (apply_rule_of_three pow fnr fnr_pw alpha (nb_all_pos s), apply_rule_of_three pow fpr fpr_pw alpha (nb_all_neg s)).
+  Proof.
+    intros Hs Hid A0 A1 Hn Hl. set (n := length fnr).
+    destruct Hs as (He & Hp & Hng). assert (Hs : proper s) by exact (conj He (conj Hp Hng)).
+    destruct (thresholds_at_fpr_total succ pred s (map rval fpr) Hng) as [t_fpr Et].
+    destruct (thresholds_at_fnr_total succ pred s (map rval fnr) Hp) as [t_fnr Et'].
+    assert (L1 : length t_fpr = n).
+    { apply thresholds_at_fpr_ret, Forall2_length' in Et. rewrite map_length in Et. unfold n. lia. }
+    assert (L2 : length t_fnr = n).
+    { apply thresholds_at_fnr_ret, Forall2_length' in Et'. rewrite map_length in Et'. exact Et'. }
+    set (hat := rates_at s_fnr s t_fpr ++ rates_at s_fpr s t_fnr).
+    assert (Hm : joint_metric succ pred fnr fpr s tt = Ret hat).
+    { unfold joint_metric. rewrite Et. cbn [rbind]. rewrite Et'. reflexivity. }
+    assert (Lh : length hat = (n + n)%nat) by (unfold hat, rates_at; rewrite app_length, !map_length; lia).
+    assert (Hfin : forall j, (j < length hat)%nat -> exists c, nth j hat None = Some c).
+    { intros j Hj. unfold hat, rates_at. destruct (Nat.lt_ge_cases j (length t_fpr)) as [Lt|Ge].
+      - rewrite app_nth1 by (now rewrite map_length). rewrite nth_map_in with (d' := 0) by exact Lt. now apply s_fnr_some.
+      - rewrite app_nth2 by (now rewrite map_length). rewrite map_length.
+        rewrite nth_map_in with (d' := 0) by lia. now apply s_fpr_some. }
+    destruct (identity_collapse Phi PhiInv pow15 [2%nat; n] hat (nb_samples cfg) alpha (bootstrap_method cfg) A0 A1 Hn)
+      as (data & Ed & Ld & Hd); [rewrite Lh; simpl; lia|exact Hfin|].
+    destruct (to_pairs_spec (n + n) data) as [Lp Np]; [lia|].
+    exists t_fpr, t_fnr, (firstn n (to_pairs data)), (skipn n (to_pairs data)).
+    split; [exact Et|]. split; [exact Et'|]. split; [|split].
+    - split; [rewrite firstn_length; lia|]. intros j Hj.
+      destruct (Hfin j ltac:(lia)) as [c Hc]. destruct (Hd j c ltac:(lia) Hc) as (lo & hi & E0 & E1 & Hlo & Hhi).
+      exists lo, hi, c. split.
+      + rewrite <- Hc. unfold hat, rates_at. rewrite app_nth1 by (rewrite map_length; lia).
+        now rewrite nth_map_in with (d' := 0) by lia.
+      + rewrite nth_firstn by exact Hj. rewrite Np by lia. rewrite E0, E1. auto.
+    - split; [rewrite skipn_length; lia|]. intros j Hj.
+      destruct (Hfin (n + j)%nat ltac:(lia)) as [c Hc]. destruct (Hd (n + j)%nat c ltac:(lia) Hc) as (lo & hi & E0 & E1 & Hlo & Hhi).
+      exists lo, hi, c. split.
+      + rewrite <- Hc. unfold hat, rates_at. rewrite app_nth2 by (rewrite map_length; lia). rewrite map_length, L1.
+        replace (n + j - n)%nat with j by lia. now rewrite nth_map_in with (d' := 0) by lia.
+      + rewrite nth_skipn'. rewrite Np by lia. rewrite E0, E1. auto.
+    - unfold RocCI.pointwise_intervals. rewrite (joint_ci_identity s fnr fpr alpha cfg hist hat Hid Hm). fold n. rewrite Ed. reflexivity.
+  Qed.
+
+  Lemma rates_at_length f s l : length (rates_at f s l) = length l.
+  Proof. unfold rates_at. apply map_length. Qed.
+
+  (* roc_with_ci under an identity sampler: the bands are the envelopes (aggregate_rectangles) of the pointwise
+     rectangles [q_j, q_j] x [q'_j, q'_j] with the rule-of-three substitution *)
+  Theorem roc_with_ci_identity s fnr0 fpr0 thr0 nb_points x alpha cfg hist ths :
+    proper s -> identity_sampler s cfg hist -> 0 < alpha -> alpha < 1 -> (0 < nb_samples cfg)%nat ->
+    find_support_thresholds succ pred s fnr0 fpr0 thr0 nb_points (Some ROC_CI_EXTRA_POINTS) x = Ret ths ->
+    let fnr := rates_at s_fnr s ths in
+    let fpr := rates_at s_fpr s ths in
+    exists t_fpr t_fnr fnr_pw fpr_pw,
+      thresholds_at_fpr succ pred s (map rval fpr) = Ret t_fpr /\
+      thresholds_at_fnr succ pred s (map rval fnr) = Ret t_fnr /\
+      pw_ok (fun j => s_fnr s (Fin (nth j t_fpr 0))) (length ths) fnr_pw /\
+      pw_ok (fun j => s_fpr s (Fin (nth j t_fnr 0))) (length ths) fpr_pw /\
+      let fnr_ci := apply_rule_of_three pow fnr fnr_pw alpha (nb_all_pos s) in
+      let fpr_ci := apply_rule_of_three pow fpr fpr_pw alpha (nb_all_neg s) in
+      roc_with_ci succ pred pow Phi PhiInv pow15 H dynamic_choice builtin_sample s fnr0 fpr0 thr0 nb_points x alpha cfg hist
+      = Ret (mkROC fnr fpr ths (Some (aggregate_rectangles fpr fpr_ci fnr_ci)) (Some (aggregate_rectangles fnr fnr_ci fpr_ci))).
+  Proof.
+    intros Hs Hid A0 A1 Hn Hth fnr fpr.
+    destruct (pointwise_identity s fnr fpr alpha cfg hist Hs Hid A0 A1 Hn) as (t_fpr & t_fnr & fnr_pw & fpr_pw & E1 & E2 & P1 & P2 & E);
+      [unfold fnr, fpr; now rewrite !rates_at_length|].
+    exists t_fpr, t_fnr, fnr_pw, fpr_pw. unfold fnr in P1, P2. rewrite rates_at_length in P1, P2.
+    repeat (split; [assumption|]). cbv zeta. unfold roc_with_ci. rewrite Hth. cbn [rbind]. fold fnr fpr. rewrite E. reflexivity.
+  Qed.
+
+  (* experimental.pointwise_band_ci under an identity sampler: the same intervals, not aggregated *)
+  Theorem pointwise_band_identity s fnr0 fpr0 thr0 nb_points alpha cfg hist ths :
+    proper s -> identity_sampler s cfg hist -> 0 < alpha -> alpha < 1 -> (0 < nb_samples cfg)%nat ->
+    find_support_thresholds succ pred s fnr0 fpr0 thr0 nb_points default_nb_extra_points default_x_axis = Ret ths ->
+    let fnr := rates_at s_fnr s ths in
+    let fpr := rates_at s_fpr s ths in
+    exists t_fpr t_fnr fnr_pw fpr_pw,
+      thresholds_at_fpr succ pred s (map rval fpr) = Ret t_fpr /\
+      thresholds_at_fnr succ pred s (map rval fnr) = Ret t_fnr /\
+      pw_ok (fun j => s_fnr s (Fin (nth j t_fpr 0))) (length ths) fnr_pw /\
+      pw_ok (fun j => s_fpr s (Fin (nth j t_fnr 0))) (length ths) fpr_pw /\
+      pointwise_band_ci succ pred pow Phi PhiInv pow15 H dynamic_choice builtin_sample s fnr0 fpr0 thr0 nb_points alpha cfg hist
+      = Ret (mkROC fnr fpr ths (Some (apply_rule_of_three pow fnr fnr_pw alpha (nb_all_pos s)))
+                               (Some (apply_rule_of_three pow fpr fpr_pw alpha (nb_all_neg s)))).
+  Proof.
+    intros Hs Hid A0 A1 Hn Hth fnr fpr.
+    destruct (pointwise_identity s fnr fpr alpha cfg hist Hs Hid A0 A1 Hn) as (t_fpr & t_fnr & fnr_pw & fpr_pw & E1 & E2 & P1 & P2 & E);
+      [unfold fnr, fpr; now rewrite !rates_at_length|].
+    exists t_fpr, t_fnr, fnr_pw, fpr_pw. unfold fnr in P1, P2. rewrite rates_at_length in P1, P2.
+    repeat (split; [assumption|]). unfold pointwise_band_ci. rewrite Hth. cbn [rbind]. fold fnr fpr. rewrite E. reflexivity.
+  Qed.
+End Identity.
+
+(* ====================================================================== *)
+(* E. any sampler: NaN-free, within [0,1], shape                           *)
+(* ====================================================================== *)
+(* one component of Scores.bootstrap_ci's array result, for all three methods *)
+Lemma utils_ci_component Phi PhiInv pow15 yshape rows hs alpha m sh data j :
+  0 < alpha -> alpha < 1 -> length hs = prod_shape yshape -> (j < prod_shape yshape)%nat ->
+  utils_ci Phi PhiInv pow15 yshape rows (Some hs) alpha m = Ok (sh, data) ->
+  length data = (2 * prod_shape yshape)%nat /\
+  ci_col Phi PhiInv pow15 m (column rows j) (nth j hs None) alpha = Ok (nth (j * 2 + 0) data None, nth (j * 2 + 1) data None).
+Proof.
+  intros A0 A1 Hl Hj. unfold utils_ci, bootstrap_ci. destruct m.
+  - rewrite bootstrap_ci_quantile_ok by (constructor; [lra|constructor]). intro E. injection E as _ <-.
+    split; [rewrite quantile_pairs_length, columns_length; simpl; lia|].
+    rewrite quantile_formula by assumption.
+    destruct (quantile_pairs_nth (columns rows (prod_shape yshape)) [alpha] j 0) as [E0 E1];
+      [now rewrite columns_length|simpl; lia|].
+    cbn [length nth] in E0, E1. replace (1 * 2)%nat with 2%nat in E0, E1 by reflexivity.
+    rewrite columns_nth in E0, E1 by exact Hj.
+    replace (j * 2 + 0)%nat with (j * 2 + (0 * 2 + 0))%nat by lia. replace (j * 2 + 1)%nat with (j * 2 + (0 * 2 + 1))%nat by lia.
+    now rewrite E0, E1.
+  - intro E. destruct (bootstrap_ci_bcx_component Phi PhiInv pow15 MBc yshape rows hs alpha sh data j ltac:(discriminate) Hl Hj E) as [C L].
+    destruct (bootstrap_ci_bcx_ok Phi PhiInv pow15 MBc yshape rows hs alpha sh data ltac:(discriminate) E) as [-> _].
+    split; [|exact C]. rewrite L, prod_shape_app. simpl. lia.
+  - intro E. destruct (bootstrap_ci_bcx_component Phi PhiInv pow15 MBca yshape rows hs alpha sh data j ltac:(discriminate) Hl Hj E) as [C L].
+    destruct (bootstrap_ci_bcx_ok Phi PhiInv pow15 MBca yshape rows hs alpha sh data ltac:(discriminate) E) as [-> _].
+    split; [|exact C]. rewrite L, prod_shape_app. simpl. lia.
+Qed.
+
+Lemma all_ret_spec {A} (l : list (Threshold.res A)) l' : all_ret l = Ret l' -> l = map Ret l'.
+Proof.
+  unfold all_ret. intro H. apply map_res_ret in H. induction H as [|a b l l' Hab _ IH]; simpl; congruence.
+Qed.
+
+(* a rate of a proper object is a number in [0,1] *)
+Lemma s_fnr_unit s t : proper s -> exists v, s_fnr s t = Some v /\ 0 <= v /\ v <= 1.
+Proof.
+  intro Hs. destruct (proper_pop s Hs) as [Hp _]. destruct (s_fnr_count s t (proj1 Hs) Hp) as (v & E & Hv & Hc).
+  exists v. split; [exact E|]. assert (Hq : 0 < inject_Z (nb_all_pos s)) by (change 0 with (inject_Z 0); rewrite <- Zlt_Qlt; exact Hp).
+  rewrite Hv. split.
+  - apply Qle_shift_div_l; [exact Hq|]. rewrite Qmult_0_l. change 0 with (inject_Z 0). rewrite <- Zle_Qle. lia.
+  - apply Qle_shift_div_r; [exact Hq|]. rewrite Qmult_1_l. rewrite <- Zle_Qle. lia.
+Qed.
+Lemma s_fpr_unit s t : proper s -> exists v, s_fpr s t = Some v /\ 0 <= v /\ v <= 1.
+Proof.
+  intro Hs. destruct (proper_pop s Hs) as [_ Hp]. destruct (s_fpr_count s t (proj1 Hs) Hp) as (v & E & Hv & Hc).
+  exists v. split; [exact E|]. assert (Hq : 0 < inject_Z (nb_all_neg s)) by (change 0 with (inject_Z 0); rewrite <- Zlt_Qlt; exact Hp).
+  rewrite Hv. split.
+  - apply Qle_shift_div_l; [exact Hq|]. rewrite Qmult_0_l. change 0 with (inject_Z 0). rewrite <- Zle_Qle. lia.
+  - apply Qle_shift_div_r; [exact Hq|]. rewrite Qmult_1_l. rewrite <- Zle_Qle. lia.
+Qed.
+
+(* an interval list whose rows are numbers within [0,1] *)
+Definition unit_rows (n : nat) (ci : list (rate * rate)) : Prop :=
+  length ci = n /\ forall j, (j < n)%nat -> exists lo hi, nth j ci (None, None) = (Some lo, Some hi) /\ 0 <= lo /\ lo <= 1 /\ 0 <= hi /\ hi <= 1.
+Definition unit_rates (l : list rate) : Prop := forall j, (j < length l)%nat -> exists v, nth j l None = Some v /\ 0 <= v /\ v <= 1.
+
+Section AnySampler.
+  Variable succ pred : Q -> Q.
+  Variable pow : Q -> Q -> Q.
+  Variables Phi PhiInv pow15 : Q -> Q.
+  Variable H : Type.
+  Variable dynamic_choice : scores -> config scores -> sampling scores.
+  Variable builtin_sample : sampling scores -> scores -> config scores -> H -> BootCI.res scores.
+
+  (* every sample the sampler returns has scored positives and negatives (C11's at-least-one rule) *)
+  Definition samples_proper (s : scores) (cfg : config scores) (hist : nat -> H) : Prop :=
+    forall j smp, (j < nb_samples cfg)%nat ->
+      bootstrap_sample scores H dynamic_choice builtin_sample s cfg (hist j) j = Ok smp -> proper smp.
+
+  Lemma joint_metric_value fnr fpr s' v : length fpr = length fnr -> proper s' ->
+    joint_metric succ pred fnr fpr s' tt = Ret v -> length v = (2 * (length fnr * 1))%nat /\ unit_rates v.
+  Proof.
+    intros Hl Hs. unfold joint_metric. intro E.
+    apply rbind_ret in E. destruct E as (t_fpr & E1 & E). apply rbind_ret in E. destruct E as (t_fnr & E2 & E).
+    injection E as <-.
+    apply thresholds_at_fpr_ret, Forall2_length' in E1. apply thresholds_at_fnr_ret, Forall2_length' in E2.
+    rewrite map_length in E1, E2. unfold rates_at. split; [rewrite app_length, !map_length; lia|].
+    intros j Hj. rewrite app_length, !map_length in Hj.
+    destruct (Nat.lt_ge_cases j (length t_fpr)) as [Lt|Ge].
+    - rewrite app_nth1 by (now rewrite map_length). rewrite nth_map_in with (d' := 0) by exact Lt. now apply s_fnr_unit.
+    - rewrite app_nth2 by (now rewrite map_length). rewrite map_length. rewrite nth_map_in with (d' := 0) by lia. now apply s_fpr_unit.
+  Qed.
+  Lemma joint_metric_length fnr fpr s' v : length fpr = length fnr ->
+    joint_metric succ pred fnr fpr s' tt = Ret v -> length v = (2 * (length fnr * 1))%nat.
+  Proof.
+    intros Hl. unfold joint_metric. intro E.
+    apply rbind_ret in E. destruct E as (t_fpr & E1 & E). apply rbind_ret in E. destruct E as (t_fnr & E2 & E).
+    injection E as <-.
+    apply thresholds_at_fpr_ret, Forall2_length' in E1. apply thresholds_at_fnr_ret, Forall2_length' in E2.
+    rewrite map_length in E1, E2. unfold rates_at. rewrite app_length, !map_length. lia.
+  Qed.
+
+  (* the raw bootstrap intervals (before the rule of three) *)
+  Lemma joint_ci_unit s fnr fpr alpha cfg hist sh data :
+    0 < alpha -> alpha < 1 -> (0 < nb_samples cfg)%nat -> length fpr = length fnr -> samples_proper s cfg hist ->
+    joint_ci succ pred Phi PhiInv pow15 H dynamic_choice builtin_sample s fnr fpr alpha cfg hist = Ok (sh, data) ->
+    unit_rows (2 * length fnr) (to_pairs data).
+  Proof.
+    intros A0 A1 Hn Hl Hsp. unfold joint_ci. rewrite bootstrap_ci_m_spec.
+    destruct (bootstrap_metric _ _ _ _ _ _ _ _ _ _ _ _ _) as [rows|] eqn:Er; [|discriminate].
+    cbn [resolve_metric]. unfold ci_routine.
+    destruct (all_ret rows) as [rows'|] eqn:Ea; [|discriminate].
+    destruct (joint_metric succ pred fnr fpr s tt) as [h|] eqn:Eh; [|discriminate].
+    intro E. apply all_ret_spec in Ea. subst rows.
+    destruct (bootstrap_metric_rows _ _ _ _ _ _ _ _ _ _ _ _ _ _ Raise Er) as [Lr Hr].
+    rewrite map_length in Lr.
+    pose proof (joint_metric_length fnr fpr s h Hl Eh) as Lh.
+    assert (Hrow : forall i, (i < length rows')%nat -> length (nth i rows' []) = (2 * (length fnr * 1))%nat /\ unit_rates (nth i rows' [])).
+    { intros i Hi. destruct (Hr i ltac:(lia)) as (smp & Es & En). cbn [resolve_metric] in En.
+      rewrite nth_map_in with (d' := []) in En by exact Hi.
+      apply (joint_metric_value fnr fpr smp); [exact Hl|eapply Hsp; [|exact Es]; lia|now symmetry]. }
+    set (n2 := (2 * (length fnr * 1))%nat) in *.
+    assert (P : prod_shape [2%nat; length fnr] = n2) by reflexivity.
+    destruct (to_pairs_spec n2 data) as [Lp Np].
+    { destruct (Nat.eq_0_gt_0_cases n2) as [Z|Pos].
+      - destruct (bootstrap_ci_shape Phi PhiInv pow15 [2%nat; length fnr] rows' (Some h) (AScalar alpha) (bootstrap_method cfg) sh data I) as [-> L];
+          [destruct (bootstrap_method cfg); [exact I|exact Lh|exact Lh]|exact E|].
+        rewrite L, !prod_shape_app. simpl. unfold n2 in Z. lia.
+      - destruct (utils_ci_component Phi PhiInv pow15 [2%nat; length fnr] rows' h alpha (bootstrap_method cfg) sh data 0 A0 A1 Lh ltac:(rewrite P; exact Pos) E) as [L _].
+        rewrite L, P. reflexivity. }
+    split; [unfold n2 in Lp; lia|]. intros j Hj. replace (2 * length fnr)%nat with n2 in Hj by (unfold n2; lia).
+    destruct (utils_ci_component Phi PhiInv pow15 [2%nat; length fnr] rows' h alpha (bootstrap_method cfg) sh data j A0 A1 Lh ltac:(rewrite P; exact Hj) E) as [_ C].
+    apply ci_col_in_range in C. destruct C as [R0 R1]. rewrite Np by exact Hj.
+    (* the column holds numbers in [0,1], at least one *)
+    assert (Hcol : forall x, In (Some x) (column rows' j) -> 0 <= x /\ x <= 1).
+    { intros x Hx. unfold column in Hx. apply in_map_iff in Hx. destruct Hx as (r & Ex & Hin).
+      destruct (In_nth _ _ [] Hin) as (i & Hi & <-). destruct (Hrow i Hi) as [Li Ui].
+      destruct (Ui j ltac:(rewrite Li; exact Hj)) as (v & Ev & V0 & V1).
+      pose proof (eq_trans (eq_sym Ex) Ev) as X. injection X as ->. auto. }
+    assert (Hne : somes (column rows' j) <> []).
+    { destruct rows' as [|r0 rows'']; [simpl in Lr; lia|].
+      destruct (Hrow 0%nat ltac:(simpl; lia)) as [L0 U0]. destruct (U0 j ltac:(rewrite L0; exact Hj)) as (v & Ev & _).
+      cbn [nth] in Ev. unfold column. cbn [map].
+      match goal with |- somes (?a :: _) <> [] => destruct a as [w|] eqn:Ew end; [simpl; discriminate|].
+      exfalso. pose proof (eq_trans (eq_sym Ew) Ev) as X. discriminate X. }
+    destruct (nth (j * 2 + 0) data None) as [lo|]; [|contradiction].
+    destruct (nth (j * 2 + 1) data None) as [hi|]; [|contradiction].
+    exists lo, hi. split; [reflexivity|].
+    destruct R0 as ((a & b & Ia & Ib & La & Lb) & _). destruct R1 as ((a' & b' & Ia' & Ib' & La' & Lb') & _).
+    pose proof (Hcol a Ia). pose proof (Hcol b Ib). pose proof (Hcol a' Ia'). pose proof (Hcol b' Ib'). lra.
+  Qed.
+
+  Hypothesis pow_unit : forall a e, 0 < a -> a < 1 -> 0 <= pow a e /\ pow a e <= 1.
+
+  Lemma rule3_unit p ci alpha n : 0 < alpha -> alpha < 1 -> length p = length ci -> unit_rows (length ci) ci ->
+    unit_rows (length ci) (apply_rule_of_three pow p ci alpha n).
+  Proof.
+    intros A0 A1 Hl [_ Hu]. split; [now apply rule3_length|]. intros j Hj. rewrite rule3_nth by assumption.
+    destruct (pow_unit alpha (1 / inject_Z n) A0 A1) as [P0 P1].
+    unfold rule3_row, upper_correction, lower_correction.
+    destruct (rgt_q _ _); [eexists _, _; split; [reflexivity|lra]|].
+    destruct (rlt_q _ _); [eexists _, _; split; [reflexivity|lra]|]. apply Hu, Hj.
+  Qed.
+
+  Lemma unit_rows_firstn n m ci : unit_rows (n + m) ci -> unit_rows n (firstn n ci).
+  Proof.
+    intros [L U]. split; [rewrite firstn_length; lia|]. intros j Hj. rewrite nth_firstn by exact Hj. apply U. lia.
+  Qed.
+  Lemma unit_rows_skipn n m ci : unit_rows (n + m) ci -> unit_rows m (skipn n ci).
+  Proof.
+    intros [L U]. split; [rewrite skipn_length; lia|]. intros j Hj. rewrite nth_skipn'. apply U. lia.
+  Qed.
+
+  (* the pointwise intervals handed to the aggregation: NaN-free, within [0,1], one per point *)
+  Theorem pointwise_unit s fnr fpr alpha cfg hist fnr_ci fpr_ci :
+    0 < alpha -> alpha < 1 -> (0 < nb_samples cfg)%nat -> length fpr = length fnr -> samples_proper s cfg hist ->
+    pointwise_intervals succ pred pow Phi PhiInv pow15 H dynamic_choice builtin_sample s fnr fpr alpha cfg hist = Ret (fnr_ci, fpr_ci) ->
+    unit_rows (length fnr) fnr_ci /\ unit_rows (length fnr) fpr_ci.
+  Proof.
+    intros A0 A1 Hn Hl Hsp. unfold pointwise_intervals.
+    destruct (joint_ci _ _ _ _ _ _ _ _ _ _ _ _ _ _) as [[sh data]|] eqn:E; [|discriminate].
+    intro R. injection R as <- <-.
+    pose proof (joint_ci_unit s fnr fpr alpha cfg hist sh data A0 A1 Hn Hl Hsp E) as U.
+    replace (2 * length fnr)%nat with (length fnr + length fnr)%nat in U by lia.
+    pose proof (unit_rows_firstn _ _ _ U) as U1. pose proof (unit_rows_skipn _ _ _ U) as U2.
+    destruct U1 as [L1 U1']. destruct U2 as [L2 U2'].
+    split.
+    - rewrite <- L1 at 1. apply rule3_unit; [exact A0|exact A1|lia|]. rewrite L1. split; auto.
+    - rewrite <- L2 at 1. apply rule3_unit; [exact A0|exact A1|lia|]. rewrite L2. split; auto.
+  Qed.
+
+  (* NaN-free rows are liftings of rational rows *)
+  Lemma unit_rows_lift n ci : unit_rows n ci ->
+    exists cq, ci = map lift2 cq /\ length cq = n /\ forall dy, In dy cq -> 0 <= fst dy /\ fst dy <= 1 /\ 0 <= snd dy /\ snd dy <= 1.
+  Proof.
+    revert n. induction ci as [|[a b] ci IH]; intros n [L U].
+    - exists []. simpl in *. repeat split; auto; destruct H0.
+    - destruct n as [|n]; [simpl in L; lia|].
+      destruct (IH n) as (cq & -> & Lq & Hq).
+      { split; [simpl in L; lia|]. intros j Hj. apply (U (S j)). lia. }
+      destruct (U 0%nat ltac:(lia)) as (lo & hi & E & B). simpl in E. injection E as -> ->.
+      exists ((lo, hi) :: cq). simpl. split; [reflexivity|]. split; [lia|]. intros dy [<-|Hd]; [simpl; lra|auto].
+  Qed.
+  Lemma unit_rates_lift l : unit_rates l -> exists lq, l = map Some lq.
+  Proof.
+    induction l as [|a l IH]; intro U; [exists []; reflexivity|].
+    destruct IH as [lq ->]. { intros j Hj. apply (U (S j)). simpl. lia. }
+    destruct (U 0%nat ltac:(simpl; lia)) as (v & E & _). simpl in E. subst a. exists (v :: lq). reflexivity.
+  Qed.
+
+  (* the aggregation keeps rows NaN-free and within [0,1], and orders every row whose own rectangle is ordered *)
+  Lemma aggregate_unit x dxp dyp n : unit_rates x -> length x = n -> unit_rows n dxp -> unit_rows n dyp ->
+    unit_rows n (aggregate_rectangles x dxp dyp) /\
+    forall j lo hi blo bhi, (j < n)%nat -> nth j dyp (None, None) = (Some lo, Some hi) -> lo <= hi ->
+      nth j (aggregate_rectangles x dxp dyp) (None, None) = (Some blo, Some bhi) -> blo <= lo /\ hi <= bhi.
+  Proof.
+    intros Ux Lx Udx Udy.
+    destruct (unit_rates_lift x Ux) as [xq ->]. rewrite map_length in Lx.
+    destruct (unit_rows_lift n dxp Udx) as (dxq & -> & Ldx & _).
+    destruct (unit_rows_lift n dyp Udy) as (dyq & -> & Ldy & Hdy).
+    split.
+    - split; [rewrite aggregate_length; rewrite !map_length; lia|]. intros j Hj.
+      rewrite aggregate_envelope by lia.
+      destruct (aggregate_in_range xq dxq dyq j 0 1 ltac:(lia) ltac:(lia)) as [B0 B1]; [intros dy Hd; destruct (Hdy dy Hd); tauto|].
+      destruct (env_lo_spec (nth j xq 0) dxq dyq (fst (nth j dyq (0, 0)))) as (L & _).
+      destruct (env_hi_spec (nth j xq 0) dxq dyq (snd (nth j dyq (0, 0)))) as (U & _).
+      assert (Hj' : (j < length dyq)%nat) by lia.
+      destruct (Hdy (nth j dyq (0, 0)) (nth_In dyq (0, 0) Hj')) as (D0 & D1 & D2 & D3).
+      eexists _, _. split; [reflexivity|]. lra.
+    - intros j lo hi blo bhi Hj Ej Hle Eb. rewrite aggregate_envelope in Eb by lia.
+      rewrite nth_map_in with (d' := (0, 0)) in Ej by lia. unfold lift2 in Ej. injection Ej as <- <-. injection Eb as <- <-.
+      destruct (env_lo_spec (nth j xq 0) dxq dyq (fst (nth j dyq (0, 0)))) as (L & _).
+      destruct (env_hi_spec (nth j xq 0) dxq dyq (snd (nth j dyq (0, 0)))) as (U & _). auto.
+  Qed.
+
+  Lemma rates_unit f s ths : (forall t, exists v, f s (Fin t) = Some v /\ 0 <= v /\ v <= 1) -> unit_rates (rates_at f s ths).
+  Proof.
+    intros Hf j Hj. unfold rates_at in *. rewrite map_length in Hj. rewrite nth_map_in with (d' := 0) by exact Hj. apply Hf.
+  Qed.
+
+  (* roc_with_ci, any sampler whose samples keep both classes scored: the curve's rates are the object's rates at the
+     returned thresholds, both bands have one row per point, every limit is a number within [0,1] *)
+  Theorem roc_with_ci_wellformed s fnr0 fpr0 thr0 nb_points x alpha cfg hist c :
+    proper s -> 0 < alpha -> alpha < 1 -> (0 < nb_samples cfg)%nat -> samples_proper s cfg hist ->
+    roc_with_ci succ pred pow Phi PhiInv pow15 H dynamic_choice builtin_sample s fnr0 fpr0 thr0 nb_points x alpha cfg hist = Ret c ->
+    find_support_thresholds succ pred s fnr0 fpr0 thr0 nb_points (Some ROC_CI_EXTRA_POINTS) x = Ret (rc_thresholds c) /\
+    rc_fnr c = rates_at s_fnr s (rc_thresholds c) /\ rc_fpr c = rates_at s_fpr s (rc_thresholds c) /\
+    exists fb pb, rc_fnr_ci c = Some fb /\ rc_fpr_ci c = Some pb /\
+      unit_rows (length (rc_thresholds c)) fb /\ unit_rows (length (rc_thresholds c)) pb.
+  Proof.
+    intros Hs A0 A1 Hn Hsp. unfold roc_with_ci. intro E.
+    apply rbind_ret in E. destruct E as (ths & Eth & E). apply rbind_ret in E. destruct E as ([fnr_ci fpr_ci] & Epw & E).
+    injection E as <-. cbn [rc_thresholds rc_fnr rc_fpr rc_fnr_ci rc_fpr_ci].
+    split; [exact Eth|]. split; [reflexivity|]. split; [reflexivity|].
+    eexists _, _. split; [reflexivity|]. split; [reflexivity|].
+    apply pointwise_unit in Epw; auto; [|now rewrite !rates_at_length].
+    rewrite rates_at_length in Epw. destruct Epw as [U1 U2].
+    split.
+    - apply aggregate_unit; auto; [apply rates_unit; intro t; now apply s_fpr_unit|apply rates_at_length].
+    - apply aggregate_unit; auto; [apply rates_unit; intro t; now apply s_fnr_unit|apply rates_at_length].
+  Qed.
+End AnySampler.
